@@ -5,6 +5,10 @@
                            (`P` if the constant evaluation fails, i.e. the instantiation does not compile).
     const_bits <cfg>       Answer: `BITS` in decimal.
     const_bytes <cfg>      Answer: `BYTES` in decimal.
+    alias <cfg> <NAME>     NAME ∈ U128 … U8192, I128 … I8192 (`<cfg>` is a dummy, e.g. `u64x0`).
+                           Answer: `<BITS>,<N>` of the aliased type: the model looks NAME up in
+                           `Consts.aliases` and computes `BITS` as `BUint::<N>::BITS` does (64 × N);
+                           the spec parses the advertised width out of the NAME and divides by 64.
   Spec: the pattern of the advertised value (`MIN`/`MAX` of the range, the numeral, its negation);
   `BITS = digit bits × N`, `BYTES = BITS / 8`.
   (The cross-digit-type comparisons of C16 are crate-vs-crate in the harness, not driver requests.)
@@ -32,6 +36,15 @@ def handle : Handler := fun c op args =>
   | "const_bytes", [] =>
     some (showOut toString (if c.signed then Consts.II.BYTES c.w c.n else Consts.UI.BYTES c.w c.n),
       toString (Spec.Consts.bytes c.w c.n))
+  | "alias", [name] =>
+    match Consts.aliases.find? (fun e => e.1 == name) with
+    | none => none
+    | some (_, signed, n, _) =>
+      let bits := if signed then Consts.II.BITS Consts.aliasDigitBits n else Consts.UI.BITS Consts.aliasDigitBits n
+      let sp := match Spec.Consts.aliasAdvertised name with
+        | some (_, b, k) => toString b ++ "," ++ toString k
+        | none => "?"
+      some (showOut (fun b => toString b ++ "," ++ toString n) bits, sp)
   | _, _ => none
 
 end Bnum.Drive.C16
